@@ -147,7 +147,27 @@ class FnInfo:
             if si.op == "add" and si.ops[0]["k"] == "inst" and si.ops[0]["v"] == j.id and si.ops[1]["k"] == "int" and int(si.ops[1]["v"]) == 1 \
                     and fn.dominates(si.block.id, latch):
                 ctr = j; break
-        if ctr is None: return None
+        if ctr is None:
+            # a counter counted down by one from a loop-invariant start (`for (remaining = n; remaining > 0; remaining--)`): n - remaining
+            # iterations are behind us
+            for j in phi.block.insts:
+                if j.op != "phi" or j is phi or j["t"].endswith("*") or len(j["incoming"]) != 2: continue
+                o2 = [x for x in j["incoming"] if x["b"] not in body]; b2 = [x for x in j["incoming"] if x["b"] in body]
+                if len(o2) != 1 or len(b2) != 1: continue
+                sv = b2[0]["v"]
+                if sv["k"] != "inst": continue
+                si = fn.imap[sv["v"]]
+                down = si.op in ("add", "sub") and si.ops[0]["k"] == "inst" and si.ops[0]["v"] == j.id and si.ops[1]["k"] == "int" and int(si.ops[1].get("sv", 0)) == (-1 if si.op == "add" else 1)
+                if not (down and fn.dominates(si.block.id, latch)): continue
+                n0 = self.lin(o2[0]["v"])
+                if not invariant(n0): continue
+                r0, off0 = self.ptr(out[0]["v"])
+                jl = self.lin({"k": "inst", "v": j.id, "t": j["t"]})
+                if S.is_const(): return off0 + (n0 - jl).scale(S.c)
+                pn = prod_atom(n0, S); pj = prod_atom(jl, S)
+                if pn is None or pj is None: continue
+                return off0 + Lin.atom(pn) - Lin.atom(pj)
+            return None
         r0, off0 = self.ptr(out[0]["v"])
         il = self.lin({"k": "inst", "v": ctr.id, "t": ctr["t"]})
         if S.is_const(): return off0 + il.scale(S.c)
